@@ -271,6 +271,24 @@ def run_case(ctx, case):
     ctx.check("clone.independent", cells_equal(gr.data, before) and
               not np.shares_memory(cl.data, gr.data), "clone|aliases-original", case,
               None)
+    # clone with an explicit dtype (the grid's own, and another one) must be
+    # independent copies as well
+    for cd in (dtype, np.float64 if dtype is not np.float64 else np.float32):
+        c2 = gr.clone(cd)
+        ctx.api("Grid.clone(dtype)")
+        okd = np.dtype(c2.dtype) == np.dtype(cd) and tuple(c2.shape) == tuple(gr.shape)
+        if cd is dtype:
+            okd = okd and cells_equal(c2.data, stored)
+        before = np.array(gr.data, copy=True)
+        c2.fill(cd(7))
+        c2[0] = cd(5)
+        indep = cells_equal(gr.data, before) and not np.shares_memory(c2.data, gr.data)
+        ctx.check("clone.dtype", bool(okd), "clone(dtype)|differs", case,
+                  lambda: {"dtype": str(np.dtype(cd))})
+        ctx.check("clone.dtype-independent", bool(indep),
+                  "clone(dtype)|aliases-original", case,
+                  lambda: {"dtype": str(np.dtype(cd)), "own_dtype": str(dt)})
+        gr.data = before
     # ----------------------------------------------------------------- clip ----
     if nrows * ncols >= 2:
         ctx.tag("clip")
